@@ -11,14 +11,14 @@
    arithmetic; instants as minutes relative to the bound.                      *)
 EXTENDS Naturals, Integers, Sequences, FiniteSets, TLC
 
-Positions == {"arg", "field", "array", "attr"}
+Positions == {"arg", "field", "array", "attr", "rep", "repfield"}     \* rep(field): a repeated argument / member (max_occurs > 1), not an Array
 Families  == {"xml", "soap11", "soap12", "json", "yaml", "msgpack", "http"}
 TextFamilies == {"xml", "soap11", "soap12", "http"}
 
 \* ------------------------------------------------------------------- numbers
 IntTypes == {"Integer", "Integer8", "UnsignedInteger8", "Integer16", "UnsignedInteger16", "Integer32", "UnsignedInteger32"}
 NumTypes == IntTypes \cup {"Decimal", "Double"}
-NumFacets == {"none", "ge5", "gt5", "le5", "lt5", "ge5le7"}
+NumFacets == {"none", "ge5", "gt5", "le5", "lt5", "ge5le7", "ge5gt3", "le5lt7"}     \* (two bounds on one side: both hold)
 Lo(ty) == CASE ty = "Integer8" -> 0 - 128 [] ty = "Integer16" -> 0 - 32768 [] ty = "Integer32" -> 0 - 2147483647 - 1
             [] ty \in {"UnsignedInteger8", "UnsignedInteger16", "UnsignedInteger32"} -> 0 [] OTHER -> 0 - 2147483647
 Hi(ty) == CASE ty = "Integer8" -> 127 [] ty = "Integer16" -> 32767 [] ty = "Integer32" -> 2147483647
@@ -26,6 +26,7 @@ Hi(ty) == CASE ty = "Integer8" -> 127 [] ty = "Integer16" -> 32767 [] ty = "Inte
 Bounded(ty) == ty \in {"Integer8", "UnsignedInteger8", "Integer16", "UnsignedInteger16"}   \* 32/64-bit bounds: BigCases (digit strings)
 FacetOk(f, x10) == CASE f = "none" -> TRUE [] f = "ge5" -> x10 >= 50 [] f = "gt5" -> x10 > 50
                      [] f = "le5" -> x10 <= 50 [] f = "lt5" -> x10 < 50 [] f = "ge5le7" -> x10 >= 50 /\ x10 <= 70
+                     [] f = "ge5gt3" -> x10 >= 50 /\ x10 > 30 [] f = "le5lt7" -> x10 <= 50 /\ x10 < 70
 ValidNum(ty, f, x10) ==
   /\ (ty \in IntTypes => x10 % 10 = 0)                      \* 4.5 is not an integer literal
   /\ (Bounded(ty) => (x10 >= 10 * Lo(ty) /\ x10 <= 10 * Hi(ty)))
@@ -74,8 +75,9 @@ NilCases == {[group |-> "nil", ty |-> ty, nillable |-> nl, mino |-> mi, how |-> 
 
 \* -------------------------------------------------------------------- instants
 \* bound B = 2020-01-01T00:00:00Z; the probe is B + delta minutes, written with UTC offset `off`
-DateFacets == {"ge", "gt", "le", "lt"}
+DateFacets == {"ge", "gt", "le", "lt", "gegt", "lelt"}     \* gegt: ge = B and gt = B - 60 min; lelt: le = B and lt = B + 60 min
 ValidDate(f, delta) == CASE f = "ge" -> delta >= 0 [] f = "gt" -> delta > 0 [] f = "le" -> delta <= 0 [] f = "lt" -> delta < 0
+                         [] f = "gegt" -> delta >= 0 /\ delta > 0 - 60 [] f = "lelt" -> delta <= 0 /\ delta < 60
 DateCases == {[group |-> "date", ty |-> "DateTime", facet |-> f, delta |-> d, off |-> o, valid |-> ValidDate(f, d)] :
                 f \in DateFacets, d \in {0 - 90, 0 - 30, 0 - 1, 0, 1, 30, 90}, o \in {0, 60, 0 - 60, 330}}
 
